@@ -122,6 +122,8 @@ impl<'a, 'b> GeneratorState<'a> {
                     .compiler_state
                     .syntax_error("Code too complex for the compiler", pos));
             }
+            // The accumulator is saved on the stack: it is free while the condition is evaluated
+            self.acc_in_use = false;
             self.local_label_counter_if += 1;
             let ifend_label = format!(".ifend{}", self.local_label_counter_if);
             let else_label = format!(".else{}", self.local_label_counter_if);
@@ -134,6 +136,7 @@ impl<'a, 'b> GeneratorState<'a> {
             self.asm(STA, &ExprType::Tmp(false), pos, false)?;
             self.tmp_in_use = true;
             self.sasm(PLA)?;
+            self.acc_in_use = true;
             Ok(ExprType::Tmp(false))
         } else {
             self.local_label_counter_if += 1;
@@ -922,7 +925,9 @@ impl<'a, 'b> GeneratorState<'a> {
                 }
                 ExprType::Absolute(a, eight_bits, b) => {
                     if self.acc_in_use {
-                        self.sasm(PHA)?;
+                        return Err(self
+                            .compiler_state
+                            .syntax_error("Code too complex for the compiler", pos));
                     }
                     if !eight_bits {
                         self.generate_condition_16bits(
@@ -943,14 +948,18 @@ impl<'a, 'b> GeneratorState<'a> {
                 }
                 ExprType::AbsoluteX(s) => {
                     if self.acc_in_use {
-                        self.sasm(PHA)?;
+                        return Err(self
+                            .compiler_state
+                            .syntax_error("Code too complex for the compiler", pos));
                     }
                     self.asm(LDA, &expr, pos, false)?;
                     self.flags = FlagsState::AbsoluteX(s.clone());
                 }
                 ExprType::AbsoluteY(s) => {
                     if self.acc_in_use {
-                        self.sasm(PHA)?;
+                        return Err(self
+                            .compiler_state
+                            .syntax_error("Code too complex for the compiler", pos));
                     }
                     self.asm(LDA, &expr, pos, false)?;
                     self.flags = FlagsState::AbsoluteY(s.clone());
@@ -969,7 +978,9 @@ impl<'a, 'b> GeneratorState<'a> {
                 }
                 ExprType::Tmp(_) => {
                     if self.acc_in_use {
-                        self.sasm(PHA)?;
+                        return Err(self
+                            .compiler_state
+                            .syntax_error("Code too complex for the compiler", pos));
                     }
                     self.asm(LDA, &expr, pos, false)?;
                     self.tmp_in_use = false;
